@@ -171,3 +171,10 @@ static int main() {
 long ran_num_next(void) {
 	return ran_arr_next();
 }
+
+/* Restart the sequence, so that what is produced next does not depend on
+   how many numbers were drawn before (the next draw re-seeds, exactly as
+   the first draw of a process does). */
+void ran_num_reset(void) {
+	ran_arr_ptr = &ran_arr_dummy;
+}
